@@ -122,7 +122,22 @@ EXTRA2 = {
  "C19": "S3: a release whose DELETE fails + a second round; acquire() returning True must be backed by a landed write of that contender during the call; a second exhaustive depth-3 scenario with two tenures of one provider.",
  "C20": "Listings of 999-2500 keys with 1000 and 100 keys per page; botocore transport errors (ConnectionClosed, ReadTimeout, ResponseStreaming, IncompleteRead, HTTPClientError) among the transient fault kinds; the fake paginator honours PaginationConfig.",
 }
+EXTRA3 = {
+ "C02": "Writers as separate OS PROCESSES forked from a parent that already imported the library (2-3 writers x 1-3 appends per transaction x 0-2 prior snapshots): every acknowledged commit is visible through every read API of a long-lived and of a fresh handle, snapshot ids are distinct.",
+ "C06": "The collector may run twice in a row while a long-open transaction's markers are as old as its files (older than the grace period, younger than 24 h).",
+ "C07": "Manifest lists / manifests re-encoded as valid Avro with one entry carrying an unknown code (content, file format, status).",
+ "C09": "Under a backwards clock: retention trimming followed by deletion of the current snapshot (macro).",
+ "C10": "The length of an all-digit version field is generated (2-4400; boundaries at 19/20, 255, 4096, 4300 digits) for bare numbers, vN-hex names and legacy names.",
+ "C12": "Integral float literals also written as ints; files holding ONE number plus NaN / NULL rows, filtered by that number.",
+ "C13": "Tables are read (and may get their last file) through the creating handle, a load_table handle, or a create_table handle whose schema numbers the same fields differently.",
+ "C16": "Which pointer RENAME is durable is tracked: nothing an older, possibly surviving pointer names may have been removed (histories include collections with grace 0).",
+ "C17": "The object-storage enumeration rebuilds its bucket every 300 paths.",
+ "C18": "Exhaustive depth-2 enumeration (first creator parked at i, second runs k <= 40 decisions, first finishes, second finishes) for create x create+append.",
+ "C19": "S3: one transient error on the read-back inside release(); no DELETE may remove a lock object that carries another contender's id and is younger than the lease.",
+}
 for _k, _v in EXTRA2.items():
+    EXTRA[_k] = (EXTRA.get(_k, "") + " " + _v).strip()
+for _k, _v in EXTRA3.items():
     EXTRA[_k] = (EXTRA.get(_k, "") + " " + _v).strip()
 for _k, _v in EXTRA.items():
     CHECKS[_k]["text"] = CHECKS[_k]["text"].rstrip() + " " + _v
